@@ -1487,6 +1487,19 @@ class Tensor(object):
         else:  # It's a scalar
             scalar = True
 
+        if not scalar and not self.batch:
+            # NumPy semantics: modes selected by an integer are absent from the value. Insert them up front
+            # (doing it while the cores are being assembled mixed cores of two different decompositions)
+            ints = [
+                i
+                for i in range(len(key))
+                if not isinstance(key[i], slice) and not hasattr(key[i], "__len__")
+            ]
+            if len(ints) > 0 and len(value.shape) == len(key) - len(ints):
+                value = value[
+                    tuple(None if i in ints else slice(None) for i in range(len(key)))
+                ]
+
         # Cores are indexed along their spatial axis below: absorb Tucker factors first
         src = self.decompress_tucker_factors(_clone=False)
 
